@@ -118,7 +118,8 @@ func scanSpaceToken(buf string, pos int) Token {
 			i = end - pos + 2
 		}
 		if isStringAt(buf, pos+i, "//") {
-			for ; !isCharAt(buf, pos+i, '\n'); i++ {
+			// a line comment ends at the newline or at the end of input.
+			for ; pos+i < len(buf) && !isCharAt(buf, pos+i, '\n'); i++ {
 			}
 		}
 	}
